@@ -218,6 +218,9 @@ def check(tier: str) -> Result:
                 elif any(x is Vc for x in cs) or vset <= {x.id for x in cs}:
                     path.append("V false => second branch")
                     cur = cur.args[2][1]
+                elif any(len(_conj(d)) > 1 and any(negand(strip_cast(c_)) is Vc or is_negation(strip_cast(c_), Vc) for c_ in _conj(d)) for d in ds):
+                    verdict = (False, f"the invalid-move reward is selected on {txt(p_, 3, 90)}: an invalid action receives it only when another condition holds as well")
+                    break
                 elif contains(p_, Vc):
                     verdict = (None, f"condition {txt(p_, 3, 80)} mixes validity with other tests: not decided")
                     break
